@@ -17,6 +17,7 @@ type WorldOpts struct {
 	ExitOverlap  bool     // exit keys may be note/action keys
 	WideDefaults bool     // C04: defaults anywhere in the range
 	KeyAxes      int      // up to this many key-emulating axes (C01)
+	AxesVary     bool     // the axes may be absent / mapped otherwise in the second and third mapping
 	Subs         int      // up to this many key sub-handlers (>=1)
 	Velocity0    bool     // allow velocity = 0 (meaning 64)
 }
@@ -187,7 +188,19 @@ func genWorld(t *rapid.T, o WorldOpts) *Desc {
 				if len(m.AnalogSubs) == 0 {
 					m.AnalogSubs = []AnalogSub{{Sub: "", Default: floatp(0.1)}}
 				}
-				m.Axes = append(m.Axes, a)
+				am := a
+				if mi > 0 && o.AxesVary {
+					// another mapping may not emulate keys with this axis at all, or with other notes
+					switch rapid.IntRange(0, 5).Draw(t, "axisInOtherMapping") {
+					case 0:
+						continue
+					case 1:
+						am = AxisDef{Sub: a.Sub, Code: a.Code, Type: "cc", CC: intp(20 + i), Min: a.Min, Max: a.Max, Deadzone: a.Deadzone}
+					case 2:
+						am.Note = intp(clampNote(*a.Note + 5))
+					}
+				}
+				m.Axes = append(m.Axes, am)
 			}
 		}
 	}
